@@ -693,7 +693,12 @@ func (vc *VC) havocRegions(st, pre *State, regs []region, pc Term) {
 			oldInner := sel(h, r.ref)
 			vc.assume(pc, T(SBool, "(forall ((j Int)) (! (=> (or (< j %s) (>= j %s)) (= (select %s j) (select %s j))) :pattern ((select %s j))))", r.lo.S, r.hi.S, nv.S, oldInner.S, nv.S))
 		}
-		st.heaps[r.heap] = vc.def("h", store(h, r.ref, nv))
+		if r.isElem {
+			// a nil slice (backing array 0) has no elements: nothing is havoced
+			st.heaps[r.heap] = vc.def("h", ite(eq(r.ref, tZero), h, store(h, r.ref, nv)))
+		} else {
+			st.heaps[r.heap] = vc.def("h", store(h, r.ref, nv))
+		}
 	}
 }
 
